@@ -1,8 +1,8 @@
 SPECIFICATION Spec
 CONSTANTS
   NPaths = 3
-  Contents = {"Enum", "Mod", "GStr", "DiagOff", "Alias", "ClsPlain"}
-  Ops = {"update", "unset", "remove"}
+  Contents = {"Enum", "Mod", "GStr", "GInt", "DiagOff", "Alias", "ReqB", "Undef"}
+  Ops = {"unset", "remove"}
   MaxSteps = 3
   EditDist = 3
   Batch = FALSE
